@@ -3,6 +3,8 @@
 Decided (structural necessary conditions in cp_als.py):
   NORMAL   on every path to the return the model passes through arrange() after the last factor update, and the
            optional fixsigns() comes after arrange() (must-pass-through ordering)
+  LOOP-acc no accumulation loop of an mttkrp / innerprod / norm / full ends its body with an unconditional return (the data of a sum
+           tensor is the sum over ALL its parts); zero sites on the reviewed tree, fixtures
   FIT      both fit expressions equal the property's formula: fit = 1 - sqrt(|nX^2 + nM^2 - 2<X,M>|) / nX, and for data of
            norm 0 the reported value nM^2 - 2<X,M>; the recomputation when printing uses the same formulas (E7);
            <X,M> is taken from the saved MTTKRP of the LAST updated mode with the weights applied
@@ -22,7 +24,7 @@ from typing import Dict, List
 
 import sympy as sp
 
-from ..model import Program, dotted, kwarg, const
+from ..model import Program, dotted, kwarg, const, AnalysisError
 from ..report import Result
 from ..paths import enumerate_paths
 from . import alg_common as A
@@ -346,6 +348,32 @@ def loop_and_init(prog: Program, res: Result) -> None:
         res.bad("INIT", F, desc, prog.loc(fi, u0[0]) if u0 else prog.loc(fi), "; ".join(why))
 
 
+LOOP1_FIXTURE = ("def f(parts, x):\n    r = g(parts[0])\n    for p in parts[1:]:\n        r += g(p)\n        return r\n",
+                 "def f(parts, x):\n    r = g(parts[0])\n    for p in parts[1:]:\n        r += g(p)\n    return r\n")
+
+
+def _loops_cut_short(tree: ast.AST):
+    """Loops whose body ends with an unconditional `return` (not nested in an if / try): they never run a second iteration."""
+    for n in ast.walk(tree):
+        if isinstance(n, (ast.For, ast.While)) and n.body and isinstance(n.body[-1], ast.Return) and len(n.body) > 1:
+            yield n
+
+
+def loop_once(prog: Program, res: Result) -> None:
+    """MTTKRP of composite data accumulates over ALL parts / components: an accumulation loop whose body ends with an unconditional return
+    stops after the first pass (the sum tensor's MTTKRP would ignore every part after the second).  No such loop on the reviewed tree
+    (fixtures keep the rule alive); scanned in every module that implements an mttkrp."""
+    if len(list(_loops_cut_short(ast.parse(LOOP1_FIXTURE[0])))) != 1 or list(_loops_cut_short(ast.parse(LOOP1_FIXTURE[1]))):
+        raise AnalysisError("LOOP-acc fixtures not recognised")
+    for q, fi in sorted(prog.functions.items()):
+        if fi.parent or fi.name not in ("mttkrp", "mttkrps", "innerprod", "norm", "full"):
+            continue
+        for lp in _loops_cut_short(fi.node):
+            res.bad("LOOP-acc", fi.short, "accumulation loops run over every part / component", prog.loc(fi, lp.body[-1]),
+                    f"`{ast.unparse(lp.body[-1])[:50]}` ends the body of `for {ast.unparse(lp.target) if isinstance(lp, ast.For) else '...'} in "
+                    f"{ast.unparse(lp.iter)[:40] if isinstance(lp, ast.For) else ''}`: the loop returns in its first pass, the remaining parts are never added")
+
+
 def check(prog: Program, res: Result, tier: str) -> None:
     res.explanation = __doc__.split("\n\n", 1)[1]
     res.assumptions = ["ktensor.arrange() normalises columns and sorts components (C08); innerprod / norm mean what they say (C02)"]
@@ -354,3 +382,4 @@ def check(prog: Program, res: Result, tier: str) -> None:
     fit(prog, res)
     gram(prog, res)
     loop_and_init(prog, res)
+    loop_once(prog, res)
